@@ -175,14 +175,16 @@ pub fn run_check(replay: Option<Value>) -> i32 {
         for (fi, _) in fams.iter().enumerate() {
             for (ti, _) in tols.iter().enumerate() {
                 for ji in 0..2 {
-                    jobs.push((mi, *m, fi, ti, ji));
+                    for shape in 0..2usize {
+                        jobs.push((mi, *m, fi, ti, ji, shape));
+                    }
                 }
             }
         }
     }
     let outs = par_map(jobs.len(), |j| {
-        let (mi, m, fi, ti, ji) = jobs[j];
-        let key = format!("ladder:{}.{}.{}.{}", mi, fi, ti, ji);
+        let (mi, m, fi, ti, ji, shape) = jobs[j];
+        let key = format!("ladder:{}.{}.{}.{}{}", mi, fi, ti, ji, if shape == 1 { ".v" } else { "" });
         if let Some(o) = &only {
             if *o != key {
                 return None;
@@ -196,7 +198,16 @@ pub fn run_check(replay: Option<Value>) -> i32 {
         let mut viols: Vec<(String, String)> = vec![];
         for k in KS {
             let p = (fam.make)(k);
+            if shape == 1 && p.n < 2 {
+                return None;
+            }
             let mut c = Cfg::new(m, 0.0, fam.span, &p.y0).tol(tol, tol * 1e-2);
+            // shape 1: per-component tolerances with different atol/rtol ratios (odd components 1e4 tighter)
+            let atolv: Vec<f64> = (0..p.n).map(|i| if shape == 1 && i % 2 == 1 { tol * 1e-6 } else { tol * 1e-2 }).collect();
+            if shape == 1 {
+                c.rtol = crate::run::Tol::V(vec![tol; p.n]);
+                c.atol = crate::run::Tol::V(atolv.clone());
+            }
             c.user_jac = ji == 0;
             let r = run(&p, &c);
             out.events += r.st.n_ode + r.st.n_jac;
@@ -215,10 +226,17 @@ pub fn run_check(replay: Option<Value>) -> i32 {
                         // worst error over all samples past the initial transient
                         err = 0.0;
                         for (t, y) in s.t.iter().zip(&s.y) {
+                            // per-component mode: a fast component crosses many decades inside the first
+                            // steps (an initial layer of width 1/k that the first step jumps over); its
+                            // own tight atol is a fair demand only once the layer is behind
+                            if shape == 1 && *t < 0.1 * fam.span {
+                                continue;
+                            }
                             let e = p.exact(0.0, &p.y0, *t).unwrap();
                             let ynorm = e.iter().fold(0.0f64, |a, v| a.max(v.abs()));
                             for i in 0..p.n {
-                                let sc = tol * 1e-2 + tol * ynorm;
+                                // per-component tolerances are judged against the component's own size
+                                let sc = if shape == 1 { atolv[i] + tol * e[i].abs() } else { tol * 1e-2 + tol * ynorm };
                                 err = err.max((y[i] - e[i]).abs() / sc);
                             }
                         }
@@ -258,7 +276,7 @@ pub fn run_check(replay: Option<Value>) -> i32 {
                 _ => viols.push(("outcome".into(), format!("k={:e}: run ended with {}", k, r.outcome_name()))),
             }
         }
-        let desc = json!({"key": key, "method": mname(m), "family": fam.name, "tol": tol, "jacobian": if ji == 0 { "user" } else { "finite-difference" }, "ladder": rows});
+        let desc = json!({"key": key, "method": mname(m), "family": fam.name, "tol": tol, "jacobian": if ji == 0 { "user" } else { "finite-difference" }, "tolerances": if shape == 1 { "per component (odd components: atol 1e4 times tighter)" } else { "scalar" }, "ladder": rows});
         for (c, msg) in viols {
             out.violations.push(Violation::new(&key, &c, msg, desc.clone()).with("method", mname(m)).with("family", fam.name.split('(').next().unwrap_or("")));
         }
